@@ -123,6 +123,15 @@ func (r *reader) ReadTiles(tiles []tlog.Tile) ([][]byte, error) {
 			r.applied++
 			continue
 		}
+		if f.Kind == "error-with-answer" {
+			// an error together with a complete answer, one tile of which is forged
+			if len(out[f.Pos]) > 9 {
+				out[f.Pos] = append([]byte(nil), out[f.Pos]...)
+				out[f.Pos][9] ^= 0x40
+			}
+			r.applied++
+			return out, errInjected
+		}
 		d, err := corrupt(r, tiles, out, f)
 		if err != nil {
 			return nil, err
@@ -178,7 +187,7 @@ func menu(t tlog.Tile, reduced bool) []menuItem {
 			m = append(m, menuItem{"slot<-prev", j})
 		}
 	}
-	m = append(m, menuItem{"drop-answer", 0}, menuItem{"extra-answer", 0}, menuItem{"trunc-byte", 0}, menuItem{"trunc-hash", 0}, menuItem{"extend-hash", 0}, menuItem{"empty", 0}, menuItem{"zero", 0}, menuItem{"error", 0},
+	m = append(m, menuItem{"drop-answer", 0}, menuItem{"extra-answer", 0}, menuItem{"error-with-answer", 0}, menuItem{"trunc-byte", 0}, menuItem{"trunc-hash", 0}, menuItem{"extend-hash", 0}, menuItem{"empty", 0}, menuItem{"zero", 0}, menuItem{"error", 0},
 		menuItem{"other-tile", -1}, menuItem{"other-tile", +1}, menuItem{"other-level", +1}, menuItem{"other-level", -1})
 	return m
 }
@@ -862,13 +871,16 @@ func hugeTiles(r *fw.Run) {
 		return h
 	}
 	sizes := []int64{511, 512, 513, 700, 1100, 4097, 1<<16 + 3, 1<<20 + 5, 1<<33 + 7, 1<<40 + 1, 1<<56 + 3, 1<<57 + 5, 1 << 58, 1<<60 + 12345, 1<<61 + 1, 1<<62 - 1}
-	heights := []int{1, 2, 4, 5, 8, 9, 10, 12, 16}
-	r.Bounds["virtual_huge_tile_reads"] = fmt.Sprintf("sizes %v x heights %v (heights 12 and 16: three sizes, first 12 index lists)", sizes, heights)
+	heights := []int{1, 2, 4, 5, 8, 9, 10, 12, 16, 20, 29, 30} // 30 is the documented maximum
+	r.Bounds["virtual_huge_tile_reads"] = fmt.Sprintf("sizes %v x heights %v (heights 12 and 16: three sizes, first 12 index lists; heights 20, 29, 30: sizes up to 4097)", sizes, heights)
 	for _, n := range sizes {
 		for _, h := range heights {
 			tall := h >= 12
-			if tall && n != 1<<16+3 && n != 1<<20+5 && n != 1<<33+7 {
+			if tall && n != 1<<16+3 && n != 1<<20+5 && n != 1<<33+7 && !(h >= 20 && n <= 4097) {
 				continue
+			}
+			if h >= 20 && n > 4097 {
+				continue // a full tile of such a height does not fit in memory: small trees only (one partial tile per level)
 			}
 			vr := &virtualTiles{h: h, level: level}
 			hr := tlog.TileHashReader(tlog.Tree{N: n, Hash: mth(n)}, vr)
